@@ -746,6 +746,7 @@ def check_p5(ctx) -> None:
               f'the client cache key depends only on {{{dep_txt}}}, not on the input text: after the file is rewritten '
               f'(or for another request that maps to the same key) a stale result is returned',
               fact=f'cache_key = {norm(v)}')
+    check_key_injective(ctx, f, key_defs[0], 'P5')
     # cached object must be the result parsed from this request's own output file
     stores = [st for st in ast.walk(f.node) if isinstance(st, ast.Assign) and isinstance(st.targets[0], ast.Subscript)
               and norm(st.targets[0].value) == 'self._cache']
@@ -766,6 +767,37 @@ def check_p5(ctx) -> None:
         ctx.check(len(elts) == 3 and elts[1] == 'input_params.as_file_path()' and elts[2] == 'input_params.get_output_file_path()',
                   'P5', 'GeophiresXClient.get_geophires_result/argv-binding', f'{f.module.rel}:{st.lineno}',
                   f'argv handed to the simulator is {elts}: input/output are not those of the request')
+
+
+INJECTIVE_WRAPPERS = ('hash', 'str', 'bytes', 'tuple', 'repr', 'hashlib.sha256', 'hashlib.md5', 'hashlib.sha1', 'hashlib.blake2b')
+INJECTIVE_METHODS = ('encode', 'hexdigest', 'digest')
+
+
+def check_key_injective(ctx, f, key_def: ast.Assign, rule: str) -> None:
+    """The request text must reach hash() unmodified: any transformation (sorting, set-building, stripping, a helper
+    function) makes two different inputs share a key, and the reader is sensitive to order (last occurrence governs)."""
+    texts = [c for c in ast.walk(key_def.value) if isinstance(c, ast.Call) and isinstance(c.func, ast.Attribute)
+             and c.func.attr in ('as_text', 'read', 'read_text')]
+    for c in texts:
+        cur = c
+        p = parent(cur)
+        culprit = None
+        while p is not None and p is not key_def:
+            if isinstance(p, ast.Tuple) or (isinstance(p, ast.Call) and cur in p.args and (
+                    (dotted_name(p.func) or '') in INJECTIVE_WRAPPERS)) or \
+                    (isinstance(p, ast.Attribute) and p.attr in INJECTIVE_METHODS) or \
+                    (isinstance(p, ast.Call) and isinstance(p.func, ast.Attribute) and p.func.attr in INJECTIVE_METHODS and p.func.value is cur):
+                cur = p
+                p = parent(p)
+                continue
+            culprit = p
+            break
+        ctx.check(culprit is None, rule, 'GeophiresXClient.get_geophires_result/cache-key-injective-in-text',
+                  f'{f.module.rel}:{key_def.lineno}',
+                  f'the input text is transformed by `{norm(culprit)[:70] if culprit is not None else ""}` before it is hashed into the '
+                  f'cache key: two inputs that differ only in what the transformation discards (e.g. the order of two occurrences of '
+                  f'one parameter - the last one governs) share a key, and the second request gets the first one\'s result',
+                  fact='as_text() reaches hash() unmodified')
 
 
 def _attr_deps(cls, attr: str, seen: Set[str]) -> Set[str]:
